@@ -283,6 +283,7 @@ pub struct ChunkReader<'a> {
     pos: usize,
     chunks: &'a [usize],
     pub reads: usize,
+    sched: usize,
     /// Number of reads that returned at least one byte.
     pub data_reads: usize,
     fault: Option<ReadFault>,
@@ -291,7 +292,7 @@ pub struct ChunkReader<'a> {
 
 impl<'a> ChunkReader<'a> {
     pub fn new(data: &'a [u8], chunks: &'a [usize], fault: Option<ReadFault>) -> ChunkReader<'a> {
-        ChunkReader { data, pos: 0, chunks, reads: 0, data_reads: 0, fault, fault_fired: false }
+        ChunkReader { data, pos: 0, chunks, reads: 0, sched: 0, data_reads: 0, fault, fault_fired: false }
     }
 }
 
@@ -313,7 +314,11 @@ impl<'a> Read for ChunkReader<'a> {
         let want = if self.chunks.is_empty() {
             buf.len()
         } else {
-            self.chunks[idx % self.chunks.len()].max(1)
+            // faulted reads do not consume a slot of the schedule, so that a
+            // retried read sees the same fragmentation as the undisturbed run
+            let slot = self.sched;
+            self.sched += 1;
+            self.chunks[slot % self.chunks.len()].max(1)
         };
         let n = want.min(buf.len()).min(self.data.len() - self.pos);
         buf[..n].copy_from_slice(&self.data[self.pos..self.pos + n]);
